@@ -682,3 +682,23 @@ Proof.
 Qed.
 
 End Survive.
+
+(* ------------------------------------------------------------------ the per-pair hypothesis from batch validity *)
+
+(* [iat_pair] for every pair of the file follows from: every IAT batch of the input validates in the Arith
+   sense (as abstract batch [fi_batch]) and, per entry, the three facts outside Arith *)
+Lemma iat_pairs_of_valid (A : Arith.tables) (hd : bytes -> hdrp) (ip : bytes -> ipay) (iq : bytes -> iqpay) (kiat : bytes -> bool) inp :
+  Forall (fun b => kiat (b_sig b) = true ->
+            Arith.validate_batch A (fi_batch A hd ip iq b) = Arith.ROk /\
+            Forall (fun e => Offsets.trace_odfi (tnum (e_trace e)) = hd_odfi_z (hd (b_sig b)) /\ rdfi_tied ip iq e /\
+                             (ip_n17 (ip (e_core e)) <= 2)%nat /\ (ip_n18 (ip (e_core e)) <= 5)%nat) (b_entries b)) inp ->
+  Forall (iat_pair A hd ip iq kiat) (ids inp).
+Proof.
+  induction 1 as [|b l Hb _ IH]; unfold ids; cbn [flat_map]; [constructor|].
+  apply Forall_app. split; [|exact IH].
+  apply Forall_forall. intros p Hp. unfold ids_of in Hp. apply in_map_iff in Hp as (e & <- & He).
+  unfold iat_pair. cbn [fst snd]. intros Ki. destruct (Hb Ki) as (Hv & Hes).
+  destruct (valid_iat_entries A hd ip iq b Hv e He) as (K1 & K2 & K3 & K4 & K5 & K6).
+  rewrite Forall_forall in Hes. destruct (Hes e He) as (K7 & K8 & K9 & K10).
+  unfold iat_entry_ok. repeat split; assumption.
+Qed.
